@@ -95,8 +95,36 @@ package style
 //@   invariant forall k string :: seen(k) ==> deepcopy(clonedSM.styles[k], sm.styles[k])
 
 // NewStyleManager returns a usable registry (needed by Open: C06).
+// The predefined styles are built from literals and registered in the manager's own map: nothing below the
+// ownership bound B (see pkg/document/zz_contracts_verif_template.go) is written.
+//@ func (*StyleManager).addHeadingStyles
+//@ props C17
+//@ ghost B int
+//@ requires sm != nil && sm.styles != nil && above(sm.styles, B)
+//@ modifies map:string:*Style
+//@ ensures unchangedBelow(B)
+
+//@ func (*StyleManager).addTOCStyles
+//@ props C17
+//@ ghost B int
+//@ requires sm != nil && sm.styles != nil && above(sm.styles, B)
+//@ modifies map:string:*Style
+//@ ensures unchangedBelow(B)
+//@ loop 1
+//@   invariant 4 <= level && level <= 10 && unchangedBelow(B)
+//@   decreases 10 - level
+
+//@ func (*StyleManager).addSpecialStyles
+//@ props C17
+//@ ghost B int
+//@ requires sm != nil && sm.styles != nil && above(sm.styles, B)
+//@ modifies map:string:*Style
+//@ ensures unchangedBelow(B)
+
 //@ func NewStyleManager
-//@ props C06
+//@ props C06, C17
+//@ ghost B int = allocBound()
+//@ modifies nothing
 //@ ensures result != nil && result.styles != nil && fresh(result)
 
 // GetAllStyles builds a fresh slice and writes nothing that existed before (used by serializeStyles: C05/C04/C13).
